@@ -602,7 +602,7 @@ def reuse_step_check(doc, eng, log):
     for r in s2["ramp"]:
         last = r["values"][-1]
         if isinstance(last, list):
-            r["values"] = [[0.75 * c for c in last], [0.5 * c for c in last]]
+            r["values"] = [(0.75 * np.asarray(last, dtype=float)).tolist(), (0.5 * np.asarray(last, dtype=float)).tolist()]
         else:
             r["values"] = [0.75 * last, 0.5 * last]
     kw = {k: v for k, v in doc.get("newton", {}).items() if k in ("tol", "maxiter")}
@@ -723,12 +723,12 @@ def refine_check(doc, eng, log):
     for s in doc2["steps"]:
         for r in s["ramp"]:
             vals = r["values"]
-            start = prev_end.get(r["target"], [0.0] * len(vals[0]) if isinstance(vals[0], list) else 0.0)
+            start = prev_end.get(r["target"], np.zeros_like(np.asarray(vals[0], dtype=float)).tolist() if isinstance(vals[0], list) else 0.0)
             out = []
             last = start
             for v in vals:
                 if isinstance(v, list):
-                    mid = [(a + b) / 2 for a, b in zip(last, v)]
+                    mid = ((np.asarray(last, dtype=float) + np.asarray(v, dtype=float)) / 2).tolist()
                 else:
                     mid = (last + v) / 2
                 out += [mid, v]
